@@ -1257,3 +1257,41 @@ Definition demo_fail : list stmt :=
   [ SEmit (EVar X); SSetAttr Y (EVar 107); SEmit (EVar 108) ].
 Lemma demo_fails : exists a, run_asks demo_ctx 60 demo_fail = ErrE E_InvalidOperation a /\ length a = 3%nat.
 Proof. eexists. split; [vm_compute; reflexivity|reflexivity]. Qed.
+
+(* ---- Lang v2: maps and unpacking assignments ---- *)
+(* the pre-fix tracker marked BOTH names of an unpacking target assigned before it visited the right-hand
+   side (set and with), also when the assignment then fails to unpack; a map literal's keys and values are
+   visited like any other sub-expression *)
+Definition p_set_pair := [SSet (TPair X Y) (EList [EVar X; EVar Y])].               (* {% set x, y = [x, y] %} *)
+Definition p_with_pair := [SWith [(TPair X Y, EList [EVar Y; EVar X])] []].         (* {% with (x, y) = [y, x] %}{% endwith %} *)
+Definition p_set_pair_fail := [SSet (TPair X Y) (EVar Y)].                          (* {% set x, y = y %}: asks y, then cannot unpack *)
+Definition p_set_map := [SSet (TVar X) (EMap [(EVar X, EConst (LInt 1))])].         (* {% set x = {x: 1} %} *)
+Definition refutation_programs_v2 := [p_set_pair; p_with_pair; p_set_pair_fail; p_set_map].
+
+Lemma refuted_before_fix_v2_proof :
+  forallb (asked_not_reported find_undeclared_old cfg0 50) refutation_programs_v2 = true /\
+  forallb (fun p => negb (asked_not_reported find_undeclared cfg0 50 p)) refutation_programs_v2 = true.
+Proof. split; vm_compute; reflexivity. Qed.
+
+(* non-vacuity with maps, success: {% set a, b = {"p": x, "q": y} %} (unpacks into the keys "p", "q"),
+   a loop over a map literal whose key is a variable, a `with` that unpacks [{"p": v}, 1] and reads the
+   map by attribute and by subscript, the length of a map from a context that holds a map: renders
+   "pq771" and asks five times (x, y, z, v, the context map) *)
+Definition demo_ctx2 := mkCfg Lenient [(X, VList [VInt 1; VInt 2]); (Y, VInt 5); (110, VInt 7);
+                                        (111, VMap (map_of_pairs [(VStr false [97], VInt 1)]))] false.
+Definition demo_map_body : list stmt :=
+  [ SSet (TPair 104 105) (EMap [(EConst (LStr [112]), EVar X); (EConst (LStr [113]), EVar Y)]);
+    SFor (TVar 106) (EMap [(EVar 104, EVar 107)]) None [SEmit (EVar 106); SEmit (EVar 105)] None false;
+    SWith [(TPair 108 109, EList [EMap [(EConst (LStr [112]), EVar 110)]; EConst (LInt 1)])]
+          [SEmit (EAttr (EVar 108) 1112); SEmit (EItem (EVar 108) (EVar 104))];
+    SEmit (EFilter F_length (EVar 111) []) ].
+Lemma demo_maps_run : exists s, run_asks demo_ctx2 60 demo_map_body = OkE s /\ plain_context demo_ctx2 = true /\
+  output_of s = [112; 113; 55; 55; 49] /\ length (s_asks s) = 5%nat.
+Proof. eexists. split; [vm_compute; reflexivity|]. repeat split; reflexivity. Qed.
+
+(* ... failure: {{ x }}{% set a, b = [y, u, v] %}{{ w }} evaluates the whole right-hand side (asking y, u, v),
+   then fails to unpack three items into two names; the third statement is not reached *)
+Definition demo_unpack_fail : list stmt :=
+  [ SEmit (EVar X); SSet (TPair 104 105) (EList [EVar Y; EVar 107; EVar 108]); SEmit (EVar 109) ].
+Lemma demo_unpack_fails : exists a, run_asks demo_ctx2 60 demo_unpack_fail = ErrE E_CannotUnpack a /\ length a = 4%nat.
+Proof. eexists. split; [vm_compute; reflexivity|reflexivity]. Qed.
